@@ -97,4 +97,65 @@ CHECKS = {
         "note": COMMON_NOTE + "np.linalg.solve is a parameter (contract: solves the system when det != 0; the executable model uses Cramer). Directions with |v|^2 overflowing/underflowing doubles are not generated. "
                 "Known finding: non-zero directions with all components <= 1e-8 are rejected by Line (vg.almost_zero convention).",
     },
+    "C03": {
+        "text": "35 theorems (all in full, any ordered field): applying a composed matrix = applying the steps one after another (affine steps; homogeneous form for arbitrary matrices; vector mode), every builder is affine, acts as documented "
+                "and its stored pair is a two-sided inverse pair; for every history and every Python slice from_range the call equals the left fold of the step actions over steps[start:stop], reverse composes the stored inverses in reverse order, "
+                "transform_matrix_for(reverse) * transform_matrix_for() = 1, round trip, vector mode ignores translations, stack = map, discard_z, each appending method returns the old length so returned indices select exactly those steps. "
+                "Call sites / delegation / returned index regenerated from the source. Tie: random histories of every method replayed whole in the model (exact rationals for exactly-invertible steps, doubles for Rodrigues/reorient/units).",
+        "note": COMMON_NOTE + "Rotations enter the model as 3x3 data (their orthogonality is C10/C11's subject); np.linalg.inv, ounce factors, rotation_from_up_and_look and Rodrigues outputs are obtained from the real functions and passed as data, "
+                "the oracle checks each stored pair is an inverse pair.",
+    },
+    "C04": {
+        "text": "21 theorems (all in full): invariant (every tag index <= number of steps) by induction over scripts; do_transform = forward fold over steps[i:j] if i<j, inverse fold in reverse order if i>j, identity if equal; "
+                "path independence A->C = A->B->C, round trip, appending transforms or new tags or re-tagging other names never changes conversions between existing tags, getattr/setattr specs, and the three error classes "
+                "(AttributeError, KeyError, ValueError). Tie: random interleavings (<= 6 tag names, equal positions, re-tagging, reads by attribute and by do_transform, every ordered tag pair) replayed whole in the model.",
+        "note": COMMON_NOTE + "Tag names that collide with attribute/method names of the class (e.g. 'flip', '_points') are not generated (recorded assumption).",
+    },
+    "C08": {
+        "text": "40 theorems: segment lengths / total / length-weighted centroid definitions (R); point_along_path: lies on the first segment with cum_i <= fL < cum_{i+1}, equals an independent recursive arc-length walk for every f in [0,1], "
+                "f=0 first vertex, f=1 last vertex (first again if closed), junction matching and a global Lipschitz bound |P(f)-P(g)| <= L|f-g| (continuity); subdivide_segment = linspace; subdivide_segments without NaN on zero-length segments; "
+                "subdivided_by_length: original vertices at the returned indices, inserted points a+(k/n)(b-a) with n = ceil(len/max) the least n with len/n <= max, unselected/short edges untouched, closedness and total length kept; "
+                "with_segments_bisected positions and index maps (total-length clause partial, checked by the oracle). Tie: Float + exact rationals on rational-length chains, thresholds, masks, stacked fractions incl. 0 and 1.",
+        "note": COMMON_NOTE + "bisected total-length clause (closed polylines: midpoint of the closing segment is inserted before vertex 0) is oracle-only.",
+    },
+    "C10": {
+        "text": "35 theorems: algebraic cores over any field (R^T R = R R^T = I, det = 1, axis fixed, right-handed turn of perpendicular vectors, J_fwd J_inv = I3 via sympy certificates); over R for the actual model functions: forward is a proper rotation "
+                "for every r with the stated axis/angle, identity for r = 0 and within eps of the true rotation under the theta<eps shortcut; inverse returns exactly theta*k for 0<theta<pi with sin theta >= 1e-5 (arccos_cos), both round trips, "
+                "half-turns about every axis incl. zero components give +-pi*k mapping back to R, length <= pi in every branch, dispatch by size/shape and ValueError; Jacobian composition for the model functions. Partial: near-pi half of the 2.5e-5 snap bound "
+                "and 'Jacobian = derivative' (measured / central differences). Thresholds, skew pattern, r_out structure and Jacobian index tables regenerated from the source. Tie: Float correspondence incl. near-0/near-pi sweeps and all 26 lattice half-turns.",
+        "note": COMMON_NOTE + "np.linalg.svd projection is a parameter (NumPy's u@vt is fed to the model, residual checked); Euler's rotation theorem (every proper rotation is rot(k,theta)) is not formalised - inverse theorems are stated on rot(k,theta); "
+                "libm sin/cos/acos in the Float run are not verified.",
+    },
+    "C11": {
+        "text": "35 theorems (all in full): euler elementary matrices are proper right-handed rotations, euler = product in the listed order, degrees = radians*pi/180 (R); rotation_from_up_and_look raises exactly for zero up / zero look / collinear, otherwise a "
+                "proper rotation with R*up = (0,|up|,0) and R*look in the y-z half-plane with positive z (R); rotation/translation/scale builders: 4x4 with last row 0001, documented action, forward*inverse = inverse*forward = 1, raise logic as an iff; "
+                "apply w=1/w=0, stack = map; compose [] = 1 and apply (compose ts) = fold for affine matrices (with a proved counterexample that affinity is needed). Every literal of these functions is regenerated from the source and tied by ring/rfl. "
+                "Tie: all 39 axis-order strings x both units every run; exact rationals for affine builders, doubles for euler/up-look.",
+        "note": COMMON_NOTE + "float64 dtype of rotation_from_up_and_look and the Rodrigues-vector form of transform_matrix_for_rotation are oracle/correspondence only. up/look magnitudes whose squared norm under/overflows doubles are not generated.",
+    },
+    "C12": {
+        "text": "26 theorems (all in full): world_to_view has orthonormal rows and columns, is an isometry, sends position to 0, target to (0,0,dist), up to (0,y>0,.) (R); orthographic matrix maps the view box corners to the cube (near to -1) and "
+                "box <-> cube; viewport maps x,y in [-1,1] to the rectangle and z to [0,1]; each inverse=True matrix is the two-sided inverse under the non-degeneracy hypotheses (ZeroDivisionError branches explicit); the canvas projection is the three stages composed "
+                "in order with width/zoom, height/zoom, reversed for the inverse. All matrix entries, defaults, stage order and argument expressions are regenerated from the source and tied by ring. Tie: exact rationals for ortho/viewport/canvas, doubles for world_to_view.",
+        "note": COMMON_NOTE + "The world_to_view rotation block has determinant -1 (left-handed view frame); the property only demands distance preservation.",
+    },
+    "C16": {
+        "text": "36 theorems (all in full): vertex/quad/face tables regenerated from the source; closed and consistently oriented (every directed edge once and its reverse once, by decide on the generated tables: 12 resp. 8 faces, all indices valid, all vertices used); "
+                "rectangular prism spans origin..origin+size with 8 distinct corners, signed volume = product of sizes, outward normals, area; cube = rectangular prism; triangular prism: first base is the given triangle, second shifted by -height*n, volume = base area*height, "
+                "outward, area (R; collinear base rejected through the explicit NaN branch); flatten = vertices[faces]; non-float size/height -> ValueError. Tie: sizes over 12 orders of magnitude, all orientations, both return forms, exact measures of the implementation's mesh.",
+        "note": COMMON_NOTE + "Plane.from_points normalisation in triangular_prism runs at Float/rational-sqrt; dtype tags observed.",
+    },
+    "C17": {
+        "text": "26 theorems: Box.from_points is the tight bound (per-axis min/max attained, every input contained) by fold invariant; every accessor, the 8 corners, the six inward face planes and contains regenerated from the source and tied; contains iff all six signed "
+                "distances >= -atol; negative size -> ValueError; bounding_box None for no vertices; extent returns the true maximum over all pairs, attained by the returned indices (R); percentile = reject(centroid, axis) + c*axis for axes that are not almost-zero "
+                "(partial: known finding for tiny non-zero axes, with a proved witness). Tie: lattice clouds with ties, zero-thickness boxes, percentiles 0..100 with NumPy's percentile value passed as data and re-derived by linear interpolation.",
+        "note": COMMON_NOTE + "np.percentile's interpolation is compared, not proved. A few ulps of rounding at the max faces are allowed in the float stream (atol = 4 ulp of the scale), exact on the lattice stream.",
+    },
+    "C20": {
+        "text": "120 theorems. Shape strictness (proof via translator): every public callable's sequence of shape validations is regenerated from the source as data; for 81 callables a theorem states accepts(generated signature) <-> documented single/stacked forms for "
+                "every argument value of any rank (2 partial, 2 known findings with proved witnesses for the Rodrigues element-count dispatch); a removed or loosened check breaks that callable's theorem. Elementwise: structural theorems that the stacked model is map/zipWith "
+                "of the single one (empty stacks, length mismatch) + row-vs-stack comparison of all 37 stack-capable callables. Purity: runtime monitor (write-protected arguments, byte comparison, self snapshots, determinism re-run) - corr-only, no theorem. "
+                "Tie: exhaustive shape sweep (thorough: all 1,555 shapes of rank <= 4, dims <= 5, every argument position of 123 callables) against the model's prediction.",
+        "note": COMMON_NOTE + "Purity and determinism are monitored, not proved (no formal semantics of NumPy buffers). Callables validated only inside vg (Polyline.apex) or without array arguments have no shape theorem and are judged by the oracle only.",
+    },
 }
